@@ -12,12 +12,11 @@ import tr_fourier as T
 # pattern ids of coq/theory/FourierModel.v
 PIDNUM = {'const': 0, 't': 1, 't2': 2, 'abs': 3, 'sign': 4, 'step': 5, 'recip': 6, 'recip2': 7, 'tstep': 8, 'expu': 9,
           'sincn': 10, 'sincu': 11, 'sincn2': 12, 'rect': 13, 'tri': 14, 'trap': 15, 'trap0': 16, 'reciplin': 17,
-          'sech': 18, 'csch': 19, 'tanh': 20, 'cexp': 21}
+          'sech': 18, 'csch': 19, 'tanh': 20, 'cexp': 21, 'tratio1': 22, 'tratio2': 22}
 RULES = {'R_simshift': 'sp_simshift', 'R_mod': 'sp_mod'}
+SPEC_ALIAS = {'tratio1': 'sp_tratio', 'tratio2': 'sp_tratio'}
 # entries that have no specification (outside C12's signal class) or cannot fire
-UNSPECIFIED = {'tratio1': 't/(a t - j b): outside the signal class of C12',
-               'tratio2': 't/(j b - a t): outside the signal class of C12',
-               'tdelta1': 't * DiracDelta(t, 1): polynomial-weighted derivative of an impulse, outside the signal class',
+UNSPECIFIED = {'tdelta1': 't * DiracDelta(t, 1): polynomial-weighted derivative of an impulse, outside the signal class',
                'DEAD': 'guard is `False and ...`',
                'SHADOWED_tstep': 'pattern t*Heaviside(t) is already matched by the earlier `other == Heaviside(t) * t`'}
 STRUCTURAL = ('D_integral', 'D_func', 'D_function', 'R_expand', 'O_sympy', 'O_sympy_table', 'O_sympy_exp')
@@ -43,6 +42,7 @@ PAT = {
     'tri': ([], '[]', ''), 'trap': ([], '[]', ''), 'trap0': ([], '[]', ''),
     'reciplin': (['rho 3%nat <> 0'], '[]', ''), 'sech': ([], '[]', ''), 'csch': ([], '[]', ''), 'tanh': ([], '[]', ''),
     'cexp': (['rho 10%nat <> 0'], '[]', ''),
+    'tratio1': (['rho 5%nat <> 0'], '[]', ''), 'tratio2': (['rho 5%nat <> 0'], '[]', ''),
     'R_simshift': (['rho 7%nat <> 0'], '[]', ''), 'R_mod': (['rho 10%nat <> 0'], '[]', ''),
 }
 
@@ -52,7 +52,7 @@ def printable(ir):
 
 
 def spec_name(pid):
-    return RULES.get(pid, 'sp_' + pid)
+    return RULES.get(pid, SPEC_ALIAS.get(pid, 'sp_' + pid))
 
 
 def gen_defs(tr):
@@ -166,7 +166,7 @@ def structural_checks(tr):
         res.append(('transformer_key_is_expr_t_f', tr.facts.get('key') == 'return (expr, t, f)', str(tr.facts.get('key'))))
         res.append(('sympy_fourier_transform_called', bool(tr.facts.get('sympy_call')), ''))
         pids = [e['pid'] for e in tr.entries]
-        for need in list(PIDNUM) + list(RULES):
+        for need in [x for x in PIDNUM if x != 'tratio2'] + list(RULES):
             if need not in pids:
                 res.append(('entry_present_%s' % need, False, 'no return for pattern %s' % need))
     if tr.inverse is not None:
